@@ -81,7 +81,7 @@ func nasEncodeRun(c *core.Ctx, name string, st *types.Struct, absent string) ([]
 		default:
 			continue
 		}
-		out = append(out, encDescribe(data, ev.Callee == "bytes.Buffer.WriteByte"))
+		out = append(out, encDescribe(data, ev.Callee == "bytes.Buffer.WriteByte", ev.Mem))
 	}
 	return out, ""
 }
@@ -99,7 +99,7 @@ func encFieldOf(path string) (string, string, bool) {
 	return rest[:i], rest[i+1:], true
 }
 
-func encDescribe(v core.AVal, oneOctet bool) encWrite {
+func encDescribe(v core.AVal, oneOctet bool, mem *core.AMem) encWrite {
 	other := func() encWrite {
 		return encWrite{tok: nasTok{Field: "?", Part: "Other", Arg: clip(core.ArgName(v))}}
 	}
@@ -155,6 +155,26 @@ func encDescribe(v core.AVal, oneOctet bool) encWrite {
 			}
 			if w, ok := part(f, m, arg); ok {
 				return w
+			}
+		}
+		// a slice made for the call ([]uint8{x.Octet}): what its cells hold
+		if mem != nil && v.Lo >= 0 && v.Len >= 1 && v.Len <= 32 && !strings.HasPrefix(v.Path, "p0.") {
+			f0, ok0 := "", true
+			for i := 0; i < v.Len && ok0; i++ {
+				e := mem.Load(fmt.Sprintf("%s[%d]", v.Path, v.Lo+i), nil)
+				if e.K != core.AInt {
+					ok0 = false
+					break
+				}
+				f, m, ok := encFieldOf(core.NameBits(e.Bits))
+				if !ok || (f0 != "" && f != f0) || !(m == fmt.Sprintf("Octet[%d]", i) || (v.Len == 1 && m == "Octet")) {
+					ok0 = false
+					break
+				}
+				f0 = f
+			}
+			if ok0 && f0 != "" {
+				return encWrite{tok: nasTok{Field: f0, Part: "Value", Arg: "Octet"}}
 			}
 		}
 	case core.AAgg:
